@@ -21,6 +21,9 @@ THEOREMS = [
     "GeoVerif.Ws.remove_no_pg_dangling",
     "GeoVerif.Ws.remove_then_ops",
     "GeoVerif.Ws.erase_uids_perm",
+    "GeoVerif.Ws.detach_uids_subset",
+    "GeoVerif.Ws.detachAll_nodup",
+    "GeoVerif.Ws.detachAll_gone",
 ]
 RULE = (
     "removal-biased histories: many add_data/pg_add so that data sit in zero, one or two property groups, then remove through "
@@ -38,7 +41,9 @@ LEVEL_TEXT = (
     "of the removed subtree are a permutation of those before (remove_exact, detach_exact), no lookup yields a removed entity "
     "(remove_lookup_none), every other entity survives (remove_survivors), no property group of a survivor lists removed data "
     "(remove_no_pg_dangling), a request without delete permission is refused and changes nothing (remove_refused), later "
-    "operations run on a consistent workspace (remove_then_ops). Tied to the code by differential histories with API scans."
+    "operations run on a consistent workspace (remove_then_ops); removing a whole list of children through the parent - the "
+    "parent's own list of children included - removes every one of them (detachAll_gone). Tied to the code by differential "
+    "histories with API scans (lookups, the four workspace listings, every property group)."
 )
 LEVEL_NOTE = "Trusted: Lean kernel, harness, h5py. Partial: removal of an entity with a protected descendant is outside the model."
 TECHNIQUE = "Lean 4 proof (permutation of identifier lists under erase, mapEnts) + differential removal histories with reference scans"
